@@ -64,6 +64,39 @@ def write_evidence(prop, tier, seed, cov, wall, nviol, assumptions):
         json.dump(ev, f, indent=1)
 
 
+def event_shapes(trace_path, family):
+    """distinct non-trivial cases in a trace: (workload family, call, outcome, class of the result, flavour /
+    scenario tag, table-size class, did the call change the contents)"""
+    shapes = set()
+    try:
+        with open(trace_path) as f:
+            for line in f:
+                e = json.loads(line)
+                ev = e.get("ev")
+                if ev in ("reset", "tables", "open_db", "note", "digest", "rm_dir", "copy_dir", "mark"):
+                    continue
+                r = e.get("res")
+                if isinstance(r, bool):
+                    rc = "true" if r else "false"
+                elif isinstance(r, int):
+                    rc = "none" if r == 0 else ("garbage" if r < 0 else "some")
+                elif isinstance(r, list):
+                    rc = "list%d" % min(len(r), 3)
+                else:
+                    rc = "-"
+                extra = e.get("flavour") or e.get("as") or e.get("open") or e.get("kt") or ""
+                if ev == "iter":
+                    extra = "%s/%d" % (extra, min(len(e.get("items", [])), 3))
+                if "runs" in e:
+                    extra = "runs%d" % min(len(e["runs"]), 50)
+                if "st" in e and isinstance(e["st"], dict):
+                    extra = "n%s/k%d/v%d" % (e["st"].get("n"), min(len(e["st"].get("ks", [])), 8), min(len(e["st"].get("vs", [])), 8))
+                shapes.add((family, ev, e.get("outcome"), rc, str(extra)))
+    except Exception:
+        pass
+    return shapes
+
+
 def sample_events(trace_path, n=6):
     out = []
     try:
@@ -117,9 +150,12 @@ def run_check(prop, tier, seed, replay, t0):
     cov = {"states": 0, "transitions": 0, "traces_validated_against_impl": 0, "evaluations": 0,
            "samples": [], "mc": [], "workloads": [], "spec_drift": 0, "out_of_scope": 0, "branch_tally": {},
            "distinct_nontrivial": 0,
-           "rule": "evaluations = trace events validated by AbyTrace; distinct_nontrivial = distinct (operation kind, chain "
-                   "position, value moved, key moved, number of other records moved, file extended) tuples observed between "
-                   "consecutive decoded states, as tallied by the trace specification"}
+           "rule": "evaluations = trace events validated by AbyTrace (TLC, one state per event). distinct_nontrivial = "
+                   "distinct_design_branches + distinct_event_shapes, both counted on this run: design branches are the distinct "
+                   "(operation kind, chain position, value moved, key moved, number of other records moved, key file extended, value "
+                   "file extended) tuples between consecutive decoded states, tallied by the trace specification; event shapes are "
+                   "the distinct (workload family, call, outcome, class of the result, flavour/scenario/key type, size class of the "
+                   "decoded state) tuples of the validated events (bookkeeping events excluded)"}
     # 1. model checking of the specification (independent of /repo: a failure is a tool error)
     if not replay:
         for mc in plan["mc"](tier):
@@ -139,13 +175,14 @@ def run_check(prop, tier, seed, replay, t0):
     else:
         batches = plan["workloads"](tier, seed)
     all_viol, all_hits, ntool = [], [], 0
+    shapes = set()
     for bi, (bname, scripts, opts) in enumerate(batches):
         if not scripts and not opts.get("bfs"):
             continue
         bdir = run.fresh_dir("%s/b%02d_%s" % (work, bi, bname))
         exe_b = exe
-        if opts.get("profile", "checked") != "checked":
-            exe_b = run.build_harness(opts["profile"])
+        if opts.get("profile", "checked") != "checked" or opts.get("features"):
+            exe_b = run.build_harness(opts.get("profile", "checked"), opts.get("features"))
         t1 = time.time()
         if opts.get("bfs"):
             # breadth-first exploration of the real state graph: the harness writes the trace files itself
@@ -188,6 +225,8 @@ def run_check(prop, tier, seed, replay, t0):
             cov["spec_drift"] += len(r["drifts"])
             for k, c in r["tally"].items():
                 cov["branch_tally"][k] = cov["branch_tally"].get(k, 0) + c
+            for t, _ in group:
+                shapes.update(event_shapes(t, bname))
             if len(cov["samples"]) < 3:
                 cov["samples"].append({"workload": bname, "first_events": sample_events(group[0][0])})
             for d in r["drifts"][:3]:
@@ -208,7 +247,9 @@ def run_check(prop, tier, seed, replay, t0):
                 all_viol.append((v, sp, bname))
         log("[run] %s: %d histories, %d events, exec %.1fs, validate %.1fs" % (bname, len(res), nev, t2 - t1, time.time() - t2))
         cov["workloads"].append({"name": bname, "histories": len(res), "events": nev})
-    cov["distinct_nontrivial"] = len(cov["branch_tally"])
+    cov["distinct_design_branches"] = len(cov["branch_tally"])
+    cov["distinct_event_shapes"] = len(shapes)
+    cov["distinct_nontrivial"] = len(cov["branch_tally"]) + len(shapes)
     # known findings: one line each, every run
     printed = set()
     for f, v in all_hits:
